@@ -69,6 +69,9 @@ func (g *dynGen) expr(ty cty.Type) ast.Node {
 	if len(g.iters) > 0 && rapid.IntRange(0, 1).Draw(t, "use_iterator") == 0 {
 		// refer to an iterator directly so that substitution is exercised
 		it := g.iters[rapid.IntRange(0, len(g.iters)-1).Draw(t, "which_iter")]
+		if len(g.iters) >= 2 && rapid.Bool().Draw(t, "prefer_outer") {
+			it = g.iters[rapid.IntRange(0, len(g.iters)-2).Draw(t, "which_outer")]
+		}
 		if it.name != g.iters[len(g.iters)-1].name {
 			g.outer = true
 		}
@@ -89,7 +92,20 @@ func (g *dynGen) dyn(x *gen.SpecM, content func() *ast.Body) (ast.Item, bool) {
 	d := ast.Dyn{Type: x.Name}
 	// for_each: a scope collection, or a constructor of literals
 	eg := gen.NewEG(t, g.scopeWithIters(), gen.ExprOpts{IllTyped: 30, Budget: 6, MaxDepth: 2, NoHeredoc: true})
-	switch rapid.IntRange(0, 5).Draw(t, "for_each_kind") {
+	fk := rapid.IntRange(0, 5).Draw(t, "for_each_kind")
+	if len(g.iters) > 0 && rapid.IntRange(0, 2).Draw(t, "for_each_from_outer") == 0 {
+		fk = 6
+	}
+	switch fk {
+	case 6:
+		// the nested dynamic iterates over something derived from an enclosing iterator
+		outer := g.iters[rapid.IntRange(0, len(g.iters)-1).Draw(t, "outer")]
+		g.outer = true
+		if rapid.Bool().Draw(t, "outer_pair") {
+			d.ForEach = ast.Tuple{Elems: []ast.Node{ast.GetAttr{Obj: ast.Var{Name: outer.name}, Name: "key"}, ast.GetAttr{Obj: ast.Var{Name: outer.name}, Name: "value"}}}
+		} else {
+			d.ForEach = ast.GetAttr{Obj: ast.Var{Name: outer.name}, Name: "value"}
+		}
 	case 0:
 		n := rapid.IntRange(0, 3).Draw(t, "n")
 		var elems []ast.Node
@@ -184,7 +200,7 @@ func staticSiblingOfDyn(b *ast.Body) bool {
 func ctxFromScope(sc *gen.Scope) *hcl.EvalContext { return evalCtx(sc) }
 
 func TestC18_Expand(t *testing.T) {
-	hx.Run(t, "C18", "Expand", 8000,
+	hx.Run(t, "C18", "Expand", 20000,
 		"spec tree + body built from it in which 1-in-3 block instances are `dynamic` blocks (nested dynamics, custom iterator names, labels computed from the iterator, inner content referring to inner and outer iterators, dynamics interleaved with static blocks of the same type); for_each from scope collections of every iterable kind and from constructors, incl. empty, marked and (separate class) unknown; oracle = reference expander (ref.ExpandDyn: one block per element in iteration order with the iterator object bound) followed by the reference decoder, compared with hcldec.Decode(dynblock.Expand(body, ctx), spec, ctx) (RawEquals after deep unmarking, equal error flags); unknown for_each: result conforms to the implied type; and expansion under a context restricted to ExpandVariablesHCLDec gives the same result; non-trivial = a dynamic block with >=2 iterations next to a static block of its type, or a nested dynamic using an outer iterator; distinct by (spec dump, body dump)",
 		func(c *hx.Case) {
 			t := c.T
